@@ -870,12 +870,29 @@ func runPaths(c *lib.Case) {
 	// the older configuration of "updated" participants: a different tree set
 	old := buildConfig(c, "TTN")
 	old.NetworkId = cfg.NetworkId
-	if c.Rng.Intn(2) == 0 && len(cfg.Nodes) > 2 {
+	switch x := c.Rng.Intn(3); {
+	case x == 0 && len(cfg.Nodes) > 2:
 		// or: the same nodes minus one, i.e. a node joined
 		o := cloneConf(cfg)
 		o.Id = "old-" + cfg.Id
 		o.Nodes = o.Nodes[1:]
 		old = o
+	case x == 1:
+		// or: exactly the same peer ids in the same order, only the types of one or two nodes differed
+		// (a tree node that was file-only before, or the reverse): the update changes the sync-node set
+		// without changing the member list (added after seeded change C18-2 was missed)
+		o := cloneConf(cfg)
+		o.Id = "old-" + cfg.Id
+		for k := 1 + c.Rng.Intn(2); k > 0; k-- {
+			i := c.Rng.Intn(len(o.Nodes))
+			if isTree(o.Nodes[i]) {
+				o.Nodes[i].Types = []nodeconf.NodeType{nodeconf.NodeTypeFile}
+			} else {
+				o.Nodes[i].Types = append([]nodeconf.NodeType{nodeconf.NodeTypeTree}, o.Nodes[i].Types...)
+			}
+		}
+		old = o
+		c.Count("paths.old_config_differs_in_types_only", 1)
 	}
 	modes := make([]mode, len(cfg.Nodes))
 	for i := range modes {
